@@ -310,6 +310,10 @@ def concurrent_cycles(ctx, count):
     try:
         for mode, pct in (("uniform", None), ("pct2", 2)):
             r = vh.call(op="sched_scenario", setup=setup, threads=threads, after=after, seed=ctx.seed * 17 + 1, count=count, pct=pct, est=200, timeout=1800)
+            if isinstance(r, dict) and r.get("sched_deadlock"):
+                # every thread of the scenario is blocked on a map lock held by another: no outcome at all
+                ctx.violation({"kind": "deadlock-under-scheduler", "where": "c16"}, {"detail": str(r.get("detail", ""))[:1500]})
+                break
             if "distinct_schedules" not in r:
                 raise Inconclusive(f"harness refused the scenario: {str(r)[:300]}")
             ctx.judged(count)
